@@ -242,8 +242,23 @@ func (matrix *DenseInt8Matrix) Tip() {
   matrix.rowOffset, matrix.colOffset = matrix.colOffset, matrix.rowOffset
   matrix.rowMax, matrix.colMax = matrix.colMax, matrix.rowMax
 }
+func (matrix *DenseInt8Matrix) asVector() DenseInt8Vector {
+  if matrix.rows != matrix.rowMax || matrix.cols != matrix.colMax {
+    // sliced matrix: collect the elements of the slice
+    n, m := matrix.Dims()
+    v := make([]int8, n*m)
+    for i := 0; i < n; i++ {
+      for j := 0; j < m; j++ {
+        v[i*m + j] = matrix.values[matrix.index(i, j)]
+      }
+    }
+    return DenseInt8Vector(v)
+  } else {
+    return DenseInt8Vector(matrix.values)
+  }
+}
 func (matrix *DenseInt8Matrix) AsVector() Vector {
-  return DenseInt8Vector(matrix.values)
+  return matrix.asVector()
 }
 func (matrix *DenseInt8Matrix) storageLocation() uintptr {
   return uintptr(unsafe.Pointer(&matrix.values[0]))
@@ -332,7 +347,7 @@ func (matrix *DenseInt8Matrix) IsSymmetric(epsilon float64) bool {
   return true
 }
 func (matrix *DenseInt8Matrix) AsConstVector() ConstVector {
-  return DenseInt8Vector(matrix.values)
+  return matrix.asVector()
 }
 /* implement ScalarContainer
  * -------------------------------------------------------------------------- */
